@@ -1384,3 +1384,37 @@ Theorem distinct_complete_partial' : forall m,
 Proof.
   intros m H1 H2 H3. apply distinct_complete_partial; auto. apply chains_are_short.
 Qed.
+
+(* ================================================================ non-vacuity of the hypotheses *)
+(* non-vacuity: T1 ::= INTEGER   T2 ::= SET { c1 T1, c2 CHOICE { c1 BOOLEAN, c2 NULL }, c3 ENUMERATED { e1(3), e2(5) } } *)
+Definition w_ok : module :=
+  {| m_tagging := TgExplicit;
+     m_defs := [ {| d_name := 1; d_tag := None; d_ty := TPrim PInt |};
+                 {| d_name := 2; d_tag := None;
+                    d_ty := TCons KSet [mkc 1 FMandatory (TRef 1);
+                                        mkc 2 FMandatory (TCons KChoice [mkc 1 FMandatory (TPrim PBool); mkc 2 FMandatory (TPrim PNull)] None []);
+                                        mkc 3 FMandatory (TEnum [(1%nat, Some 3%Z); (2%nat, Some 5%Z)])] None [] |} ] |}.
+
+Example sound_partial_nonvacuous : check w_ok = Accept /\ chref_free w_ok.
+Proof.
+  split; [vm_compute; reflexivity|].
+  intros t Hin c r Hc. vm_compute in Hin.
+  repeat (destruct Hin as [E|Hin]; [subst t; simpl in Hc|]); try contradiction;
+    repeat (destruct Hc as [E|Hc]; [inversion E; subst|]); try contradiction;
+    intro F; vm_compute in F; discriminate.
+Qed.
+
+Example complete_partial_nonvacuous : tagging_wf w_ok /\ distinct_spec w_ok /\ enums_plain w_ok.
+Proof.
+  split; [|split].
+  - split; [|split].
+    + simpl. repeat constructor; simpl; intuition discriminate.
+    + repeat constructor.
+    + intros t Hin. vm_compute in Hin.
+      repeat (destruct Hin as [E|Hin]; [subst t; simpl; first [exact I | split; [repeat constructor | intro; discriminate]]|]).
+      contradiction.
+  - apply distinct_sound_partial; apply sound_partial_nonvacuous.
+  - intros t Hin. vm_compute in Hin.
+    repeat (destruct Hin as [E|Hin]; [subst t; simpl; first [exact I | left; intros it [E|[E|[]]]; subst; simpl; discriminate]|]).
+    contradiction.
+Qed.
